@@ -185,3 +185,38 @@ CHECKS["C19"] = dict(
     min_outcomes=1000,
     require_counts=dict(any=dict(states=50000, transitions=200000)),
 )
+
+CHECKS["C20"] = dict(
+    level="model_checking", engine="E3", technique=E3_TECH + "; the mutable-view clause is decided by bounded exhaustive enumeration of (view, shape, argument) cases with a snapshot diff of the source after every single write",
+    level_note="trusted: the invariants and the resize-representability model coded in harness/c20_ndarray.cpp, the arena allocator of engine/nmc_bfs.hpp (global operator new is "
+               "routed into it while implementation code runs), g++ 12 (+ASan/UBSan shadow build). Bounded: histories up to the stated depth over the stated shape menu on two live objects.",
+    level_text="For the generic ndarray_t in all 15 shape x buffer kinds x {row, column}-major layout and the legacy hybrid_ndarray / dynamic_ndarray, every operation history up to "
+               "depth 4 (quick) / 5 (thorough) over {default-construct, copy-construct, assign-from(other|self), resize(shape) over a menu of 9 / 15 shapes of dim 1..4 incl. "
+               "dimension changes, capacity overflows and unrepresentable shapes, write(every position)} on two live objects is explored by BFS on the real objects; after every "
+               "transition both objects must satisfy: product(shape)==size()==buffer length, dim==len(shape), strides()==suffix products, the buffer offset of every index equals "
+               "the declared layout's formula (bijection), every element equals the model's, a refused resize returned false and changed nothing, an accepted one installed the "
+               "requested shape; every state is additionally cast to other array kinds (where the library supports the source kind). Mutable views: for every shape of "
+               "S(1..3,3|4) and every argument of mutable_flatten / mutable_reshape / mutable_ref / mutable_slice, every view index is written once and the source is diffed.",
+    units=[
+        U("nd_g1", "harness/c20_ndarray.cpp", flags=["-DC20_GROUP=1"], shards=1),
+        U("nd_g2", "harness/c20_ndarray.cpp", flags=["-DC20_GROUP=2"], shards=1),
+        U("nd_g3", "harness/c20_ndarray.cpp", flags=["-DC20_GROUP=3"], shards=1),
+        U("nd_g4", "harness/c20_ndarray.cpp", flags=["-DC20_GROUP=4"], shards=1),
+        U("mutable", "harness/c20_mutable.cpp", shards=2),
+        U("nd_g1_san", "harness/c20_ndarray.cpp", flags=["-DC20_GROUP=1"], san=True, family="nd_g1", shadow=True, shards=1, run_tier="quick"),
+        U("nd_g2_san", "harness/c20_ndarray.cpp", flags=["-DC20_GROUP=2"], san=True, family="nd_g2", shadow=True, shards=1, run_tier="quick"),
+        U("nd_g3_san", "harness/c20_ndarray.cpp", flags=["-DC20_GROUP=3"], san=True, family="nd_g3", shadow=True, shards=1, run_tier="quick"),
+        U("nd_g4_san", "harness/c20_ndarray.cpp", flags=["-DC20_GROUP=4"], san=True, family="nd_g4", shadow=True, shards=1, run_tier="quick"),
+        U("mutable_san", "harness/c20_mutable.cpp", san=True, family="mutable", shadow=True, shards=2, run_tier="quick"),
+    ],
+    rule="BFS: state = canonical form (object bytes + reachable heap blocks, pointers normalised) of the two real array objects; transition = one real operation + the full invariant "
+         "check on both objects; non-trivial = state first reached by a history with at least one operation other than default construction. Mutable views: case = (view, source shape, "
+         "arguments) with every view index written once; non-trivial = source has > 1 element. distinct = distinct canonical state / distinct case key",
+    bounds=dict(quick="histories <= 4, 9-shape menu, 33 subjects; mutable views over S(1..3,3)", thorough="histories <= 5, 15-shape menu; mutable views over S(1..3,4)"),
+    assumptions=["what an ACCEPTED resize does to the contents is not specified by the property: the model adopts the implementation's contents after an accepted resize",
+                 "cast<dtype>(ndarray_t) and cast(kind) of fixed-dim / bounded-dim / clipped sources are rejected at compile time by the library and therefore not instantiated",
+                 "a default-constructed legacy dynamic_ndarray has an empty shape; the invariants apply from its first resize on",
+                 "exploration below a failing transition is pruned (the minimal failing histories are reported)"],
+    min_outcomes=1000,
+    require_counts=dict(any=dict(states=10000, transitions=40000)),
+)
